@@ -19,6 +19,8 @@ import (
 	"strconv"
 	"strings"
 	"sync"
+	"sync/atomic"
+	"time"
 
 	"github.com/vektah/gqlparser/v2"
 	"github.com/vektah/gqlparser/v2/ast"
@@ -58,6 +60,10 @@ type C14Case struct {
 	Layout bool    `json:"layout,omitempty"`
 	Limits []int64 `json:"limits"`
 	Fixed  bool    `json:"fixed"` // FixedComplexityLimit (one server per limit) instead of ComplexityLimit{Func}
+	// CalcCtx/CalcK: complexity.Calculate is evaluated a second time under this context state
+	// ("cancelled" | "deadline" | "during": the CalcK-th call of a custom complexity function cancels it).
+	CalcCtx string `json:"calc_ctx,omitempty"`
+	CalcK   int    `json:"calc_k,omitempty"`
 	// History mode (spec/ComplexityGate.tla): ONE server, optionally with a query
 	// cache, receives the steps in order; Limits is unused.
 	Cache string    `json:"cache"` // "" / none | map | lru | lru1
@@ -69,6 +75,11 @@ type C14Step struct {
 	Query string         `json:"query"` // "" = the case's query text
 	Vars  map[string]any `json:"vars"`
 	Limit int64          `json:"limit"`
+	// the request's context (spec/ComplexityGate.tla, Mode "ctx"): "" / "live", "cancelled" (cancelled before the
+	// request is handled), "deadline" (its deadline has passed before), "during" (cancelled from inside the
+	// K-th call of a custom complexity function while the operation is priced)
+	Ctx string `json:"ctx,omitempty"`
+	K   int    `json:"k,omitempty"`
 }
 
 type C14Run struct {
@@ -82,6 +93,8 @@ type C14Run struct {
 	StatsCx    int64    `json:"stats_cx"`
 	StatsLimit int64    `json:"stats_limit"`
 	Bad        string   `json:"bad,omitempty"`
+	Fired      bool     `json:"fired,omitempty"` // Ctx "during": the K-th custom complexity function ran and cancelled the context
+	CtxErr     string   `json:"ctx_err,omitempty"`
 }
 
 // C14Probe is one direct call of ExecutableSchema.Complexity.
@@ -116,9 +129,13 @@ type C14Result struct {
 	Layout  *C14Layout `json:"layout,omitempty"`
 	Calc    int64      `json:"calc"`
 	CalcErr string     `json:"calc_err,omitempty"`
-	Calcs   []int64    `json:"calcs"` // history mode: complexity.Calculate per step
-	Runs    []C14Run   `json:"runs"`
-	Err     string     `json:"error,omitempty"`
+	Calcs   []int64    `json:"calcs"` // history mode: complexity.Calculate per step (under the step's context state)
+	// regular cases with CalcCtx: complexity.Calculate under that context state
+	CalcCtxV     int64    `json:"calc_ctx_v,omitempty"`
+	CalcCtxFired bool     `json:"calc_ctx_fired,omitempty"`
+	CalcsFired   []bool   `json:"calcs_fired,omitempty"`
+	Runs         []C14Run `json:"runs"`
+	Err          string   `json:"error,omitempty"`
 }
 
 func c14SatAdd(a, b int) int {
@@ -178,13 +195,61 @@ func C14ArgX(args map[string]any) int64 {
 
 type c14Key struct{}
 
-// c14Holder collects what one HTTP request did.
+// c14Holder collects what one HTTP request (or one direct Calculate) did.
 type c14Holder struct {
 	mu        sync.Mutex
 	execs     int
 	statsSeen bool
 	statsCx   int64
 	statsLim  int64
+	// the context dimension: the cancelAt-th call of a custom complexity function cancels the context
+	priced   int
+	cancelAt int
+	cancel   context.CancelFunc
+	fired    bool
+}
+
+// pricedOne is called by every custom complexity function (user code) when it runs.
+func (h *c14Holder) pricedOne() {
+	h.mu.Lock()
+	h.priced++
+	hit := h.cancelAt > 0 && h.priced == h.cancelAt && h.cancel != nil
+	if hit {
+		h.fired = true
+	}
+	h.mu.Unlock()
+	if hit {
+		h.cancel()
+	}
+}
+
+// C14Priced is called by a hand-written ExecutableSchema.Complexity when it evaluates a configured function.
+func C14Priced(ctx context.Context) {
+	if h, _ := ctx.Value(c14Key{}).(*c14Holder); h != nil {
+		h.pricedOne()
+	}
+}
+
+// c14Cur is the holder of the request / calculation in flight in a generated probe (one case at a time per
+// process): the ComplexityRoot functions have no context parameter.
+var c14Cur atomic.Pointer[c14Holder]
+
+// c14Ctx builds the context of one request or calculation in the state the case asks for.
+func c14Ctx(base context.Context, h *c14Holder, state string, k int) (context.Context, context.CancelFunc) {
+	base = context.WithValue(base, c14Key{}, h)
+	switch state {
+	case "cancelled":
+		ctx, cancel := context.WithCancel(base)
+		cancel()
+		return ctx, cancel
+	case "deadline":
+		return context.WithDeadline(base, time.Now().Add(-time.Hour))
+	case "during":
+		ctx, cancel := context.WithCancel(base)
+		h.cancelAt, h.cancel = k, cancel
+		return ctx, cancel
+	}
+	return context.WithCancel(base)
 }
 
 func (h *c14Holder) noteStats(ctx context.Context) {
@@ -241,7 +306,21 @@ func c14Server(es graphql.ExecutableSchema, fixed bool, limit int64) *handler.Se
 }
 
 // c14Calc is complexity.Calculate on the operation as the server would see it.
-func c14Calc(es graphql.ExecutableSchema, query, opName string, reqVars map[string]any) (calc int64, calcErr, err string) {
+// The document is parsed and validated once; Calculate is called once per context state asked for.
+type c14CtxSpec struct {
+	state string
+	k     int
+}
+
+func c14Calc(es graphql.ExecutableSchema, query, opName string, reqVars map[string]any, state string, k int) (calc int64, fired bool, calcErr, err string) {
+	calcs, fireds, calcErr, err := c14CalcN(es, query, opName, reqVars, []c14CtxSpec{{state, k}})
+	if len(calcs) == 1 {
+		return calcs[0], fireds[0], calcErr, err
+	}
+	return 0, false, calcErr, err
+}
+
+func c14CalcN(es graphql.ExecutableSchema, query, opName string, reqVars map[string]any, specs []c14CtxSpec) (calcs []int64, fireds []bool, calcErr, err string) {
 	defer func() {
 		if r := recover(); r != nil {
 			calcErr = fmt.Sprintf("panic: %v", r)
@@ -249,11 +328,11 @@ func c14Calc(es graphql.ExecutableSchema, query, opName string, reqVars map[stri
 	}()
 	doc, errs := gqlparser.LoadQuery(es.Schema(), query)
 	if errs != nil {
-		return 0, "", "query does not validate: " + errs.Error()
+		return nil, nil, "", "query does not validate: " + errs.Error()
 	}
 	op := doc.Operations.ForName(opName)
 	if op == nil {
-		return 0, "", "operation not found: " + opName
+		return nil, nil, "", "operation not found: " + opName
 	}
 	// decode variables like the POST transport does (json.Number)
 	var rawVars map[string]any
@@ -261,24 +340,39 @@ func c14Calc(es graphql.ExecutableSchema, query, opName string, reqVars map[stri
 	dec := json.NewDecoder(bytes.NewReader(vb))
 	dec.UseNumber()
 	if e := dec.Decode(&rawVars); e != nil {
-		return 0, "", "variables: " + e.Error()
+		return nil, nil, "", "variables: " + e.Error()
 	}
 	vars, e := validator.VariableValues(es.Schema(), op, rawVars)
 	if e != nil {
-		return 0, "", "variables: " + e.Error()
+		return nil, nil, "", "variables: " + e.Error()
 	}
-	return int64(complexity.Calculate(context.Background(), es, op, vars)), "", ""
+	defer c14Cur.Store(nil)
+	for _, sp := range specs {
+		h := &c14Holder{}
+		ctx, cancel := c14Ctx(context.Background(), h, sp.state, sp.k)
+		c14Cur.Store(h)
+		calc := int64(complexity.Calculate(ctx, es, op, vars))
+		cancel()
+		h.mu.Lock()
+		fireds = append(fireds, h.fired)
+		h.mu.Unlock()
+		calcs = append(calcs, calc)
+	}
+	return calcs, fireds, "", ""
 }
 
 // c14Request sends one HTTP POST to srv and reports what happened.
-func c14Request(srv *handler.Server, query, opName string, vars map[string]any, lim int64) C14Run {
+func c14Request(srv *handler.Server, query, opName string, vars map[string]any, lim int64, state string, k int) C14Run {
 	if vars == nil {
 		vars = map[string]any{}
 	}
 	body, _ := json.Marshal(map[string]any{"query": query, "operationName": opName, "variables": vars})
 	run := NewRun()
 	h := &c14Holder{}
-	ctx := context.WithValue(WithRun(context.Background(), run), c14Key{}, h)
+	ctx, cancel := c14Ctx(WithRun(context.Background(), run), h, state, k)
+	defer cancel()
+	c14Cur.Store(h)
+	defer c14Cur.Store(nil)
 	req := httptest.NewRequest(http.MethodPost, "/query", bytes.NewReader(body)).WithContext(ctx)
 	req.Header.Set("Content-Type", "application/json")
 	req.Header.Set(c14LimitHeader, strconv.FormatInt(lim, 10))
@@ -316,7 +410,13 @@ func c14Request(srv *handler.Server, query, opName string, vars map[string]any, 
 			r.Resolved++
 		}
 	}
+	h.mu.Lock()
 	r.StatsSeen, r.StatsCx, r.StatsLimit = h.statsSeen, h.statsCx, h.statsLim
+	r.Fired = h.fired
+	h.mu.Unlock()
+	if e := ctx.Err(); e != nil {
+		r.CtxErr = e.Error()
+	}
 	return r
 }
 
@@ -365,7 +465,7 @@ func C14Exec(es graphql.ExecutableSchema, c *C14Case) (res *C14Result) {
 			if q == "" {
 				q = c.Query
 			}
-			calc, cerr, err := c14Calc(es, q, c.OpName, st.Vars)
+			calc, fired, cerr, err := c14Calc(es, q, c.OpName, st.Vars, st.Ctx, st.K)
 			if err != "" {
 				res.Err = err
 				return res
@@ -374,16 +474,29 @@ func C14Exec(es graphql.ExecutableSchema, c *C14Case) (res *C14Result) {
 				res.CalcErr = cerr
 			}
 			res.Calcs = append(res.Calcs, calc)
-			res.Runs = append(res.Runs, c14Request(srv, q, c.OpName, st.Vars, st.Limit))
+			res.CalcsFired = append(res.CalcsFired, fired)
+			res.Runs = append(res.Runs, c14Request(srv, q, c.OpName, st.Vars, st.Limit, st.Ctx, st.K))
 		}
 		return res
 	}
 	// (a) complexity.Calculate
 	var err string
-	res.Calc, res.CalcErr, err = c14Calc(es, c.Query, c.OpName, c.Vars)
+	specs := []c14CtxSpec{{"", 0}}
+	if c.CalcCtx != "" {
+		specs = append(specs, c14CtxSpec{c.CalcCtx, c.CalcK})
+	}
+	var calcs []int64
+	var fireds []bool
+	calcs, fireds, res.CalcErr, err = c14CalcN(es, c.Query, c.OpName, c.Vars, specs)
 	if err != "" {
 		res.Err = err
 		return res
+	}
+	if len(calcs) > 0 {
+		res.Calc = calcs[0]
+	}
+	if len(calcs) > 1 {
+		res.CalcCtxV, res.CalcCtxFired = calcs[1], fireds[1]
 	}
 	// (b) the server
 	var shared *handler.Server
@@ -395,7 +508,7 @@ func C14Exec(es graphql.ExecutableSchema, c *C14Case) (res *C14Result) {
 		if c.Fixed {
 			srv = c14Server(es, true, lim)
 		}
-		res.Runs = append(res.Runs, c14Request(srv, c.Query, c.OpName, c.Vars, lim))
+		res.Runs = append(res.Runs, c14Request(srv, c.Query, c.OpName, c.Vars, lim, "", 0))
 	}
 	return res
 }
@@ -448,6 +561,9 @@ func c14Install(costs map[string]C14Cost) (missing []string) {
 			cost := costs[slot]
 			seen[slot] = true
 			gv.Field(j).Set(reflect.MakeFunc(f.Type, func(in []reflect.Value) []reflect.Value {
+				if h := c14Cur.Load(); h != nil {
+					h.pricedOne() // user code runs: the context dimension may cancel the request here
+				}
 				child := int(in[0].Int())
 				var x int64
 				for _, a := range in[1:] {
